@@ -91,3 +91,47 @@ def gen_transfers(rng, big=False, ns=None, dll='j1939-21', lats=None, sizefn=siz
             horizon = max(horizon, t2 + ((n2 + 6) // 7) * 60000 + 3_000_000)
     script.sort(key=lambda e: e['t'])
     return dict(stacks=stacks, lat=lat, jit=[rng.choice([1, 1000])], script=script, horizon=horizon + 1000)
+
+
+def size22(rng, big):
+    r = rng.random()
+    if r < 0.2:
+        return rng.choice([61, 119, 120, 121, 179, 180, 181])
+    if big and r < 0.35:
+        return rng.randint(2000, 20000)
+    return rng.randint(61, 700)
+
+
+def gen_transfers22(rng, big=False, ntr=None, capacity=False):
+    """J1939-22: 2-3 stacks, 1..8 RTS/CTS + 0..4 BAM concurrent per originator, latencies in (0, 5 ms]"""
+    ns = rng.choice([2, 2, 3])
+    stacks, owned = mk_stacks(rng, ns, 'j1939-22')
+    lat = [rng.choice([1, 500, 5000]) for _ in range(rng.choice([1, 2, 3]))]
+    script = []
+    horizon = 0
+    all_addr = [(i, a) for i, o in enumerate(owned) for a in o]
+    n = ntr or rng.randint(1, 10)
+    t0 = 1000
+    for k in range(n):
+        i, sa = rng.choice(all_addr)
+        if rng.random() < 0.3:
+            kind, da = 'bam', 255
+        else:
+            kind = 'p2p'
+            cands = [a for (j, a) in all_addr if j != i]
+            da = rng.choice(cands)
+        sz = size22(rng, big)
+        if kind == 'bam':
+            if rng.random() < 0.5:
+                pf, ps = rng.randint(240, 255), rng.randint(0, 255)
+            else:
+                pf, ps = rng.choice([x for x in range(0, 240) if x not in (0xEA, 0xEB, 0xEC, 0xEE, 0x4D, 0x4E, 0x25)]), 255
+        else:
+            pf, ps = rng.choice([x for x in range(0, 240) if x not in (0xEA, 0xEB, 0xEC, 0xEE, 0x4D, 0x4E, 0x25)]), da
+        t = t0 + rng.choice([0, 0, 1, 300, 2000, 20000])
+        script.append(dict(t=t, s=i, op='send', a=[rng.choice([0, 0, 1]), pf, ps, rng.randint(0, 7), sa, dict(seed=rng.getrandbits(30), len=sz)]))
+        nseg = (sz + 59) // 60
+        dur = nseg * 12000 + 4_500_000
+        horizon = max(horizon, t + dur)
+    script.sort(key=lambda e: e['t'])
+    return dict(stacks=stacks, lat=lat, jit=[rng.choice([1, 1000])], script=script, horizon=horizon + 1000)
